@@ -31,6 +31,11 @@ static std::vector<RCP<const Basic>> composite_pool(const std::string &obl)
         for (auto &v : as) objs.push_back(function_symbol("f", v));
     }
     else if (obl.find(".MIntPoly.") != std::string::npos) { for (auto &m : mpoly_pool()) objs.push_back(m); }
+    else if (obl.find(".Mul.") != std::string::npos) {
+        std::vector<RCP<const Basic>> cf = {integer(2), integer(3), big, real_double(2.0), rational(1, 2)};
+        std::vector<RCP<const Basic>> fs = {x, y, pow(x, integer(2)), pow(y, x), pow(x, big), pow(x, integer(5))};
+        for (auto &c : cf) for (unsigned i = 0; i < fs.size(); i++) { objs.push_back(mul(c, fs[i])); for (unsigned j = i + 1; j < fs.size(); j++) objs.push_back(mul(c, mul(fs[i], fs[j]))); }
+    }
     else if (obl.find(".Add.") != std::string::npos) {
         std::vector<RCP<const Basic>> sums = {add(x, y), add(x, mul(integer(2), y)), add(add(x, y), z)};
         for (auto &s : sums) { objs.push_back(s); objs.push_back(sub(add(s, real_double(1.5)), real_double(1.5))); objs.push_back(add(s, integer(1))); objs.push_back(add(s, real_double(1.0))); objs.push_back(sub(add(s, integer(3)), integer(3))); }
@@ -96,6 +101,6 @@ static int mpoly_search(const std::string &obl)
 }
 static bool is_composite_obligation(const std::string &obl)
 {
-    for (const char *k : {".Pow.", ".Interval.", ".TwoArgBasic.", ".OneArgFunction.", ".Add.", ".ordered_compare.", ".Complement.", ".Contains.", ".MIntPoly.cmp."}) if (obl.find(k) != std::string::npos) return true;
+    for (const char *k : {".Pow.", ".Interval.", ".TwoArgBasic.", ".OneArgFunction.", ".Add.", ".ordered_compare.", ".Complement.", ".Contains.", ".MIntPoly.cmp.", ".Mul."}) if (obl.find(k) != std::string::npos) return true;
     return false;
 }
